@@ -20,6 +20,9 @@ from .common import *  # noqa: F401,F403
 from . import boundary, detmodel as D
 
 DET = "pyxel/detectors/"
+BOUNDED = {
+    r'^load_model\.history': 'the history load ; empty ; load',
+}      # unit-name / obligation-name patterns -> the family these obligations are proved for
 TRUSTED = ["the ASDF library writes and reads back the tree it is given; xr.Dataset/DataTree/DataArray.to_dict/from_dict and DataFrame.to_dict/DataFrame(dict) are mutually inverse "
            "(scene, processed data and the charge cluster table are boundaries)", "HDF5 backend (h5py) is not installed: not covered",
            "APDCharacteristics is covered for freshly constructed objects only (known finding after setter use)"]
